@@ -20,6 +20,15 @@ N18 `match M.entry(K) { Entry::Occupied(o) => { A }, Entry::Vacant(v) => { .. v.
     `if M.contains_key(&K) { A } else { .. M.insert(K, V) .. }`  (o unused)  /  `if let Some(o) = M.get_mut(&K) { A[o.into_mut() := o] } else { .. }`
 N19 inside `if V.is_none() { .. }`:  `let mut it = I.filter(|q| C); if let Some(p) = it.next() { if it.next().is_none() { V = Some(E); } }`
     ->  `for p in I { if C[q:=p] { if V.is_some() { V = None; break; } V = Some(E); } }`   (unique-match selection)
+N20 `let h = match S { P1 => f1, P2 => f2 }; .. h(args)` (h used exactly once, as the callee; every arm value a function path)
+    ->  `match S { P1 => f1(args), P2 => f2(args) }` at the call   (picking a function pointer, then calling it once)
+N21 `if let Data::A(..) = ast.data { X } else if let Data::B(..) = ast.data { Y } else { Z }`  ->  `match ast.data { Data::A(..) => X,
+    Data::B(..) => Y, Data::<the remaining variant>(_) => Z }`   (syn::Data has exactly Struct, Enum, Union)
+N22 `match S { A | B => BODY[match S { A => x, _ => y }], .. }`  ->  `match S { A => BODY[x], B => BODY[y], .. }`  (an or-pattern arm that looks the
+    alternative up again is the arms written out)
+N24 `let v = match X { P1 => K1(a), P2 if g => K2, P3 => K3 }; match v { K1(p) => A, K2 => B, K3 => C }` (v used nowhere else, every arm
+    value a constructor)  ->  `match X { P1 => { let p = a; A }, P2 if g => B, P3 => C }`   (classify-then-dispatch on a private enum)
+N25 `match X { .., P if g => A, P => B, .. }` (same pattern twice in a row, the first guarded)  ->  `match X { .., P => if g { A } else { B }, .. }`
 N5  `W.predicates.extend(X);`                      ->  `for __item in X { W.predicates.push(__item); }`
 """
 
@@ -464,6 +473,269 @@ def _unique_filter(stmts):
     return None
 
 
+def _fnptr_select(stmts):
+    """N20 over one statement list"""
+    for i, a in enumerate(stmts):
+        if a.get('k') != 'Local' or not isinstance(a.get('init'), dict) or a['init'].get('k') != 'Match' or a.get('else') is not None:
+            continue
+        p = a['pat']
+        while p.get('k') == 'Type':
+            p = p['pat']
+        if p.get('k') != 'Ident' or p.get('mut') or p.get('by_ref'):
+            continue
+        name = p['name']
+        m = a['init']
+        if not m['arms'] or any(arm.get('guard') is not None or arm['body'].get('k') != 'Path' or len(arm['body']['path']['segs']) < 2 for arm in m['arms']):
+            continue
+        rest = stmts[i + 1:]
+        if _uses(rest, name) != 1:
+            continue
+        calls = []
+
+        def f(n):
+            if n.get('k') == 'Call' and isinstance(n.get('func'), dict) and n['func'].get('k') == 'Path' and n['func']['path'].get('s') == name:
+                calls.append(n)
+        _walk(rest, f)
+        if len(calls) != 1:
+            continue
+        c = calls[0]
+        import copy as _c
+        arms = []
+        for arm in m['arms']:
+            arm2 = dict(arm)
+            arm2['body'] = {'k': 'Call', 'l': arm['body'].get('l', 0), 'func': arm['body'], 'args': _c.deepcopy(c['args'])}
+            arms.append(arm2)
+        new = {'k': 'Match', 'l': m.get('l', 0), 'expr': m['expr'], 'arms': arms, 'desugared': 'fn-pointer-select'}
+        keep = {k_: v_ for k_, v_ in c.items() if isinstance(k_, str) and k_.startswith('_')}
+        c.clear()
+        c.update(new)
+        c.update(keep)
+        return stmts[:i] + rest
+    return None
+
+
+def _data_iflet_chain(n):
+    """N21"""
+    arms = []
+    cur = n
+    scrut = None
+    while isinstance(cur, dict) and cur.get('k') == 'If' and isinstance(cur.get('cond'), dict) and cur['cond'].get('k') == 'Let':
+        c = cur['cond']
+        e = c['expr']
+        txt = None
+        x = e
+        while isinstance(x, dict) and x.get('k') == 'Ref':
+            x = x['expr']
+        if isinstance(x, dict) and x.get('k') == 'Field' and x.get('member') == 'data' and x['base'].get('k') == 'Path' and x['base']['path'].get('s') == 'ast':
+            txt = 'ast.data'
+        p = c['pat']
+        if txt is None or p.get('k') != 'TupleStruct' or p['path']['s'] not in ('Data::Struct', 'Data::Enum', 'Data::Union'):
+            return None
+        if scrut is None:
+            scrut = e
+        arms.append((p, cur['then'], cur.get('l', 0)))
+        cur = cur.get('else')
+        if isinstance(cur, dict) and cur.get('k') == 'Block' and len(cur.get('stmts', [])) == 1 and cur['stmts'][0].get('k') == 'Expr' \
+                and not cur['stmts'][0].get('semi') and isinstance(cur['stmts'][0]['expr'], dict) and cur['stmts'][0]['expr'].get('k') == 'If':
+            cur = cur['stmts'][0]['expr']
+    if len(arms) < 2 or cur is None or (isinstance(cur, dict) and cur.get('k') == 'If'):
+        return None
+    seen = [a[0]['path']['s'].split('::')[1] for a in arms]
+    missing = [v for v in ('Struct', 'Enum', 'Union') if v not in seen]
+    if len(set(seen)) != len(seen) or len(missing) != 1:
+        return None
+    l = n.get('l', 0)
+    out = [{'pat': a[0], 'guard': None, 'body': a[1], 'attrs': [], 'l': a[2]} for a in arms]
+    out.append({'pat': {'k': 'TupleStruct', 'l': l, 'qself': False, 'path': _ppath('Data::' + missing[0], l), 'elems': [{'k': 'Wild', 'l': l}]},
+                'guard': None, 'body': cur, 'attrs': [], 'l': l})
+    return {'k': 'Match', 'l': l, 'expr': scrut, 'arms': out, 'desugared': 'data-iflet-chain'}
+
+
+def _strip_ref_expr(e):
+    while isinstance(e, dict) and e.get('k') in ('Ref', 'Paren'):
+        e = e['expr']
+    return e
+
+
+def _same_expr(a, b):
+    from .syn import es as _es
+    return _es(_strip_ref_expr(a)).replace(' ', '') == _es(_strip_ref_expr(b)).replace(' ', '')
+
+
+def _split_or_arms(m):
+    """N22"""
+    from .syn import pat_s as _ps
+    import copy as _c
+    changed = False
+    arms = []
+    for a in m['arms']:
+        p = a['pat']
+        if p.get('k') != 'Or' or a.get('guard') is not None:
+            arms.append(a)
+            continue
+        inner = []
+
+        def find(n):
+            if n.get('k') == 'Match' and _same_expr(n['expr'], m['expr']):
+                inner.append(n)
+        _walk(a['body'], find)
+        if not inner:
+            arms.append(a)
+            continue
+        new_arms = []
+        ok = True
+        for case in p['cases']:
+            ct = _ps(case)
+
+            def pick(n, ct=ct):
+                if n.get('k') == 'Match' and _same_expr(n['expr'], m['expr']):
+                    for ia in n['arms']:
+                        if ia.get('guard') is not None:
+                            return None
+                        pt = _ps(ia['pat'])
+                        if pt == ct or ia['pat'].get('k') == 'Wild':
+                            return _c.deepcopy(ia['body'])
+                        if ia['pat'].get('k') == 'Or' and ct in [_ps(x) for x in ia['pat']['cases']]:
+                            return _c.deepcopy(ia['body'])
+                    return {'k': 'Path', 'l': 0, 'qself': None, 'path': {'s': '__n22_unresolved', 'segs': [{'id': '__n22_unresolved'}], 'global': False}}
+                return None
+            body = _map_over(_c.deepcopy(a['body']), pick)
+            if _uses(body, '__n22_unresolved'):
+                ok = False
+                break
+            a2 = dict(a)
+            a2['pat'] = case
+            a2['body'] = body
+            new_arms.append(a2)
+        if ok:
+            arms += new_arms
+            changed = True
+        else:
+            arms.append(a)
+    if changed:
+        m = dict(m)
+        m['arms'] = arms
+    return m
+
+
+def _ctor(e):
+    """(path text, [args]) of a constructor expression `K` / `K(a, b)` / `mod::K(a)`; else None"""
+    if isinstance(e, dict) and e.get('k') == 'Block' and len(e.get('stmts', [])) == 1 and e['stmts'][0].get('k') == 'Expr' and not e['stmts'][0].get('semi'):
+        return _ctor(e['stmts'][0]['expr'])
+    if isinstance(e, dict) and e.get('k') == 'Path' and e['path']['segs'][-1]['id'][:1].isupper() and len(e['path']['segs']) >= 2:
+        return e['path']['s'], []
+    if isinstance(e, dict) and e.get('k') == 'Call' and e['func'].get('k') == 'Path' and e['func']['path']['segs'][-1]['id'][:1].isupper() \
+            and len(e['func']['path']['segs']) >= 2:
+        return e['func']['path']['s'], e['args']
+    return None
+
+
+def _classify_dispatch(stmts):
+    """N24 over one statement list"""
+    import copy as _c
+    for i in range(len(stmts) - 1):
+        a, b = stmts[i], stmts[i + 1]
+        if a.get('k') != 'Local' or not isinstance(a.get('init'), dict) or a['init'].get('k') != 'Match' or a.get('else') is not None:
+            continue
+        p = a['pat']
+        while p.get('k') == 'Type':
+            p = p['pat']
+        if p.get('k') != 'Ident' or p.get('mut'):
+            continue
+        v = p['name']
+        if b.get('k') != 'Expr' or not isinstance(b.get('expr'), dict) or b['expr'].get('k') != 'Match':
+            continue
+        m1, m2 = a['init'], b['expr']
+        if m2['expr'].get('k') != 'Path' or m2['expr']['path'].get('s') != v or _uses(stmts[i + 2:], v) or _uses(m2['arms'], v):
+            continue
+        if any(arm2.get('guard') is not None for arm2 in m2['arms']):
+            continue
+
+        def dispatch(val, l):
+            """the body of m2 selected by the constructor expression `val` (through `if`s), or None"""
+            while isinstance(val, dict) and val.get('k') == 'Block' and len(val.get('stmts', [])) == 1 and val['stmts'][0].get('k') == 'Expr' \
+                    and not val['stmts'][0].get('semi'):
+                val = val['stmts'][0]['expr']
+            if isinstance(val, dict) and val.get('k') == 'If' and val.get('else') is not None:
+                t_, e_ = dispatch(val['then'], l), dispatch(val['else'], l)
+                if t_ is None or e_ is None:
+                    return None
+
+                def blk(x):
+                    return x if x.get('k') == 'Block' else {'k': 'Block', 'l': l, 'stmts': [{'k': 'Expr', 'expr': x, 'semi': False, 'l': l}]}
+                return dict(val, then=blk(t_), **{'else': blk(e_)})
+            c = _ctor(val)
+            if c is None:
+                return None
+            cpath, cargs = c
+            for arm2 in m2['arms']:
+                p2 = arm2['pat']
+                binds = None
+                if p2.get('k') == 'Wild':
+                    binds = []
+                else:
+                    pp = p2.get('path', {}).get('s') if p2.get('k') in ('Path', 'TupleStruct') else None
+                    if pp is not None and pp.split('::')[-1] == cpath.split('::')[-1]:
+                        elems = p2.get('elems', []) if p2.get('k') == 'TupleStruct' else []
+                        if len(elems) != len(cargs) or any(e2.get('k') not in ('Ident', 'Wild') or e2.get('sub') for e2 in elems):
+                            return None
+                        binds = [(e2, x) for e2, x in zip(elems, cargs) if e2.get('k') == 'Ident']
+                if binds is None:
+                    continue
+                lets = [{'k': 'Local', 'l': l, 'attrs': [], 'else': None, 'ty': None, 'pat': _c.deepcopy(e2), 'init': x} for e2, x in binds]
+                body = _c.deepcopy(arm2['body'])
+                if lets:
+                    if body.get('k') == 'Block':
+                        body = dict(body, stmts=lets + body['stmts'])
+                    else:
+                        body = {'k': 'Block', 'l': l, 'stmts': lets + [{'k': 'Expr', 'expr': body, 'semi': False, 'l': l}]}
+                return body
+            return None
+        arms = []
+        ok = True
+        for arm in m1['arms']:
+            body = dispatch(arm['body'], arm.get('l', 0))
+            if body is None:
+                ok = False
+                break
+            arm_new = dict(arm)
+            arm_new['body'] = body
+            arms.append(arm_new)
+        if not ok:
+            continue
+        new = {'k': 'Expr', 'l': b.get('l', 0), 'semi': b.get('semi', False),
+               'expr': {'k': 'Match', 'l': m1.get('l', 0), 'expr': m1['expr'], 'arms': arms, 'desugared': 'classify-dispatch'}}
+        return stmts[:i] + [new] + stmts[i + 2:]
+    return None
+
+
+def _merge_guard_arms(m):
+    """N25"""
+    from .syn import pat_s as _ps
+    arms = list(m['arms'])
+    changed = False
+    i = 0
+    while i + 1 < len(arms):
+        a, b = arms[i], arms[i + 1]
+        if a.get('guard') is not None and b.get('guard') is None and not a.get('attrs') and not b.get('attrs') and _ps(a['pat']) == _ps(b['pat']):
+            l = a.get('l', 0)
+
+            def blk(x):
+                return x if x.get('k') == 'Block' else {'k': 'Block', 'l': l, 'stmts': [{'k': 'Expr', 'expr': x, 'semi': False, 'l': l}]}
+            body = {'k': 'If', 'l': l, 'cond': a['guard'], 'then': blk(a['body']), 'else': blk(b['body']), 'desugared': 'guard-fallthrough'}
+            merged = dict(b)
+            merged['pat'] = a['pat']
+            merged['body'] = body
+            arms[i:i + 2] = [merged]
+            changed = True
+            continue
+        i += 1
+    if changed:
+        m = dict(m)
+        m['arms'] = arms
+    return m
+
+
 def norm(n):
     if isinstance(n, list):
         return [norm(x) for x in n]
@@ -478,6 +750,12 @@ def norm(n):
     k = n.get('k')
     if k == 'Block' and isinstance(n.get('stmts'), list):
         n['stmts'] = _split_n13(n['stmts'])
+        r20 = _fnptr_select(n['stmts'])
+        if r20 is not None:
+            n['stmts'] = r20
+        r24 = _classify_dispatch(n['stmts'])
+        if r24 is not None:
+            n['stmts'] = r24
         out = []
         for st in n['stmts']:
             rep = _any_let(st)
@@ -489,6 +767,14 @@ def norm(n):
                 rep = _entry_match(st)
             out.extend(rep if rep is not None else [st])
         n['stmts'] = out
+    if k == 'Match' and any(a.get('guard') is not None for a in n.get('arms', [])):
+        n = _merge_guard_arms(n)
+    if k == 'Match' and any(a['pat'].get('k') == 'Or' for a in n.get('arms', [])):
+        n = _split_or_arms(n)
+    if k == 'If':
+        r21 = _data_iflet_chain(n)
+        if r21 is not None:
+            return r21
     if k == 'If' and isinstance(n.get('cond'), dict) and n['cond'].get('k') == 'MethodCall' and n['cond'].get('method') == 'is_none' \
             and not n['cond'].get('args') and isinstance(n.get('then'), dict) and isinstance(n['then'].get('stmts'), list):
         r19 = _unique_filter(n['then']['stmts'])
